@@ -2,7 +2,7 @@
    The reference semantics is the Gallina interpreter VM/Exec.v (step / update / run), which the
    correspondence check compares with the real Executor on every generated program.  The theorems below
    pin down the laws that semantics obeys for all programs, stacks and heaps.  Proofs: VM/ExecProofs.v. *)
-From MelVerif Require Import Base.Arith VM.Op Generated VM.Weight VM.Exec VM.LoopProofs VM.ExecProofs.
+From MelVerif Require Import Base.Arith VM.Op Generated VM.Weight VM.Exec VM.LoopProofs VM.ExecProofs VM.LoopCount.
 Open Scope N_scope.
 
 (* 256-bit wrapping arithmetic *)
@@ -77,6 +77,37 @@ Theorem C10_failure_is_final : forall O prog s n,
   pc s < len prog -> step O prog s = None -> step1 O prog s n = Fin None (n + 1).
 Proof. exact failure_is_final. Qed.
 Print Assumptions C10_failure_is_final.
+
+(* counted loops: for every program pre ++ Loop n |body| :: body ++ post whose body is straight-line code
+   (no Loop, no jump), every n >= 1, every stack and heap: after 1 + n*|body| steps the machine is just behind
+   the body with an empty loop stack, and stack and heap are the result of running the body exactly n times *)
+Theorem C10_loop_runs_body_exactly_n_times : forall O pre body post n L,
+  1 <= n -> len body = L -> 1 <= L -> forallb is_simple body = true ->
+  forall st hp d' cnt,
+  iter_body O body (N.to_nat n) (st, hp) = Some d' ->
+  run_nat O (pre ++ Loop n L :: body ++ post) (1 + N.to_nat n * N.to_nat L)
+          {| pc := len pre; stack := st; heap := hp; loops := [] |} cnt =
+  Cont {| pc := len pre + 1 + L; stack := fst d'; heap := snd d'; loops := [] |} (cnt + 1 + n * L).
+Proof. exact loop_runs_body_exactly_n_times. Qed.
+Print Assumptions C10_loop_runs_body_exactly_n_times.
+
+(* a loop with zero iterations skips its body *)
+Theorem C10_loop_zero_skips_body : forall O pre body post (n L : N),
+  1 <= n -> len body = L -> 1 <= L -> forallb is_simple body = true -> forall st hp ls,
+  step O (pre ++ Loop 0 L :: body ++ post) {| pc := len pre; stack := st; heap := hp; loops := ls |}
+  = Some {| pc := fst (update (len pre + 1 + L) ls); stack := st; heap := hp; loops := snd (update (len pre + 1 + L) ls) |}.
+Proof. exact loop_zero_skips_body. Qed.
+Print Assumptions C10_loop_zero_skips_body.
+
+(* a straight-line instruction acts on stack and heap only, moves the pc by one, keeps the loop stack *)
+Theorem C10_straight_line : forall O o s,
+  is_simple o = true ->
+  exec_op O o s = match data_step O o (stack s, heap s) with
+                  | Some d' => Some {| pc := pc s + 1; stack := fst d'; heap := snd d'; loops := loops s |}
+                  | None => None
+                  end.
+Proof. exact simple_exec. Qed.
+Print Assumptions C10_straight_line.
 
 (* non-vacuity / sanity: a counted loop runs its body exactly the stated number of times *)
 Example C10_loop_runs_n_times :
